@@ -226,6 +226,24 @@ def run(ctx, R):
                 R.ok("C19.R2", cfgf.short, k, loc(cfgf, st), "re-binding filters by key only")
         else:
             R.undecided("C19.R2", cfgf.short, k, loc(cfgf, st), "the configuration dictionary is re-bound in a way the rule does not recognise")
+    # every loader runs inside the guarded region: a value of the wrong type (`"source_dirs": 5`)
+    # raises TypeError/AttributeError in a loader, which must end in the message, not in initialize
+    from .shared import absorbs
+
+    loader_quals = {L["func"].qual for L in loads if L["func"].qual != cfgf.qual}
+    n_lc = 0
+    for c in calls_in(cfgf.node):
+        if ctx.m.enclosing_func(c) is not cfgf:
+            continue
+        tg = ctx.r.resolve_call(cfgf, c)[1] & loader_quals
+        if not tg:
+            continue
+        n_lc += 1
+        k = key(cfgf, ctx.m.enclosing_stmt(c))
+        if absorbs(ctx, c, "TypeError") and absorbs(ctx, c, "ValueError"):
+            R.ok("C19.R3", cfgf.short, k + " :: guarded", loc(cfgf, c), "wrong value types raised by the loader are reported")
+        else:
+            R.violation("C19.R3", cfgf.short, k + " :: guarded", loc(cfgf, c), "this loader runs outside the try that reports a faulty file: a value of the wrong type in a valid JSON file (`\"source_dirs\": 5`) raises TypeError out of initialize instead of producing a message")
     # ---------------------------------------------------------------- R3
     f, t = cfgf, cfgtry
     need = {"OSError": "an unreadable or vanished file", "ValueError": "invalid JSON / undecodable bytes"}
